@@ -635,6 +635,16 @@ def sequence_case(sh, i):
                             f'{[a.name for a in got]}, brute force {[a.name for a in want]}')
                     break
                 sh.count('find_assets_queries')
+            # the result of a look-up is the caller's: changing it must not change the registry
+            res = newest.find_assets()
+            n_reg = len(res)
+            res.append(None)
+            res.pop(0)
+            again = newest.find_assets()
+            if len(again) != n_reg or any(a is None for a in again) or (pool and again[0] is not pool[0]):
+                lc.fail('find_assets', f'modifying the list returned by find_assets() changed the registry: '
+                        f'{n_reg} assets before, {len(again)} after')
+            sh.count('find_assets_queries')
             d = newest.simulation_data
             for a in late:
                 nm = getattr(a, 'name', None)
